@@ -28,12 +28,15 @@ def requirements(tier):
     return {"jseen_checked": 200, "shared_slice_bitwise_checked": 200, "task_param_checked": 300, "raw_end_to_end_checked": 40,
             "w_heads_share_param": 20, "w_head_ignores_feature": 20, "w_two_features": 50, "w_generator_params": 30,
             "w_three_tasks": 50, "w_param_listed_but_unused": 10, "w_default_lists": 50, "w_explicit_lists": 50,
-            "w_pre_existing_grad": 50, "w_task_without_params": 10}
+            "w_pre_existing_grad": 50, "w_task_without_params": 10, "w_aggregator_with_user_hooks": 15}
 
 
 def gen_agg(rng, t, proxy):
     if not proxy:
-        return {"name": "Constant", "weights": aggs.random_weights(rng, t)}
+        d = {"name": "Constant", "weights": aggs.random_weights(rng, t)}
+        if rng.random() < 0.4:  # user hooks on the aggregator object are part of `aggregator(J)`
+            d["hook"] = {"post": float(np.round(rng.uniform(0.2, 3.0), 2)), "pre": None}
+        return d
     r = rng.random()
     if r < 0.4:
         return {"name": "Constant", "weights": aggs.random_weights(rng, t)}
@@ -316,6 +319,8 @@ def check_case(case, ctx):
         ctx.count("w_task_without_params")
     if any(h["around"] for h in desc["heads"]):
         ctx.count("w_head_goes_around_features")
+    if case["agg"].get("hook"):
+        ctx.count("w_aggregator_with_user_hooks")
     ctx.klass(f"agg={case['agg']['name']}{'' if case['proxy'] else '(raw)'}")
     ctx.klass(f"tasks={t}")
     ctx.klass(f"lists={case['shared_mode'][:3]}/{case['tasks_mode'][:3]}")
